@@ -363,7 +363,17 @@ try:
         both = CLS([Path(mfile), Path(pf)], "r")
         if tree(both) != t2:
             bad.append(("follow-up patch gives a different result on the merged container", tree(both), t2))
+        # merging again (merged container + follow-up patch) keeps the identity of the newest state
+        m2file = both.merge_files(Path(tmp) / "mrg2")
+        want = both.ih5_meta[-1]
         both.close()
+        m2 = CLS(tmp + "/mrg2", "r")
+        got = m2.ih5_meta[0]
+        if tree(m2) != t2:
+            bad.append(("second-generation merge shows a different tree", tree(m2), t2))
+        if (got.patch_index, got.patch_uuid, got.record_uuid) != (want.patch_index, want.patch_uuid, want.record_uuid):
+            bad.append(("second-generation merge does not identify as the newest patch state", got.patch_index, want.patch_index))
+        m2.close()
     except ValueError as e:
         bad.append(("follow-up patch does not open on the merged container", str(e)[:200]))
 finally:
@@ -505,6 +515,11 @@ try:
     if d.manifest.manifest_exts != {"keep": 1}:
         bad.append(("manifest extensions did not persist", d.manifest.manifest_exts))
     t_direct, s_direct = tree(d), shape(d)
+    d.create_patch()
+    d.commit_patch(manifest_exts={"other": 2})
+    on_disk = IH5Manifest.parse_file(Path(str(d.ih5_files[-1]) + "mf.json")).manifest_exts
+    if d.manifest.manifest_exts != {"other": 2} or on_disk != {"other": 2}:
+        bad.append(("manifest extensions not replaced by the override", d.manifest.manifest_exts, on_disk))
     d.close()
     if (r_stub == "ok") != (r_direct == "ok"):
         bad.append(("update outcome differs", r_stub, r_direct))
